@@ -307,7 +307,7 @@ func checkBytesCase(c BytesCase, r *Recorder) error {
 	return nil
 }
 
-var hostileFieldTexts = []string{"-1", "-60", "-61", "-2", "+5", "9999999999", "99999999999999999999", "", "abc", "\x00\x00\x00", "1e3", "0x10", "12 34", "007", "-0", "2147483648", "4294967296", "9223372036854775807", "-9223372036854775808"}
+var hostileFieldTexts = []string{"-1", "-60", "-61", "-2", "+5", "9999999999", "99999999999999999999", "", "abc", "\x00\x00\x00", "1e3", "0x10", "12 34", "007", "-0", "2147483648", "4294967296", "9223372036854775807", "-9223372036854775808", "-", "+", "--", "+-1", "- 1", "1-", "0x", "."}
 
 var arColumns = []struct {
 	name     string
@@ -472,8 +472,16 @@ func genCorruptArchive(t *rapid.T) BytesCase {
 		if len(txt) > col.len {
 			txt = txt[:col.len]
 		}
-		copy(raw[offs[i]+col.off:offs[i]+col.off+col.len], []byte(padRight(txt, col.len)))
-		note = "column:" + col.name + "=" + txt
+		cell := padRight(txt, col.len)
+		switch rapid.IntRange(0, 3).Draw(t, "align") {
+		case 1: // right-aligned: the text ends where the column ends
+			cell = strings.Repeat(" ", col.len-len(txt)) + txt
+		case 2: // in the middle
+			l := (col.len - len(txt)) / 2
+			cell = padRight(strings.Repeat(" ", l)+txt, col.len)
+		}
+		copy(raw[offs[i]+col.off:offs[i]+col.off+col.len], []byte(cell))
+		note = "column:" + col.name + "=" + cell
 	case "columns":
 		// several columns of one header are bad at once: which complaint comes first must not
 		// be a matter of chance
